@@ -346,16 +346,20 @@ PROPS = {
         "assumptions": [],
     },
     "C16": {
-        "lean_modules": ["AvroProofs.C16"],
-        "theorems": ["Avro.C16.count_eq_length", "Avro.C16.direct_layout", "Avro.C16.buffered_layout"],
+        "lean_modules": ["AvroProofs.C16", "AvroProofs.C16Datum"],
+        "theorems": ["Avro.C16.count_eq_length", "Avro.C16.direct_layout", "Avro.C16.buffered_layout", "Avro.C16.record_in_schema_order",
+                     "Avro.C16.ser_is_spec_datum", "Avro.C16.ser_decodes_as_one_datum"],
         "partial": [
-            {"theorem": "Avro.C16.count_eq_length / direct_layout / buffered_layout",
+            {"theorem": "Avro.C16.ser_is_spec_datum / ser_decodes_as_one_datum (with count_eq_length, direct_layout, buffered_layout, record_in_schema_order)",
              "excluded_by": "the model (serS) covers scalars, char/str, bytes, options, unit, unit structs, unit variants, newtype structs, sequences, tuples, tuple structs, "
                             "string-keyed maps and structs (any field order, skipped fields from defaults) over schemas whose only unions are Option-shaped; UnionSerializer (enums with "
-                            "data, bare unions), u64/i128/u128 and flattened structs are outside it and are covered by the oracle only. Proved: returned count = bytes emitted; an array / "
-                            "map is a legal block sequence carrying exactly the items' encodings in order for EVERY target block size. NOT proved: that the bytes are a specification-"
-                            "conforming datum of the corresponding value, that the schema-aware deserializer inverts the serializer, and equality with the generic route - decided by the "
-                            "exact rows and the oracle (read_deser, generic decode + validate, to_value/resolve, from_value)"},
+                            "data, bare unions), u64/i128/u128 and flattened structs are outside it and are covered by the oracle only. Proved for that fragment, for EVERY target block "
+                            "size: returned count = bytes emitted; a struct's fields come out in schema order, each from the value given under its name or alias or from its default, for "
+                            "every hand-over order and every set of skipped / missing fields; under SerOk (integer ranges of the Rust types, valid UTF-8, declared lengths, distinct map "
+                            "keys, sizes within the reader's limit) the bytes written are a specification-legal encoding (Spec.SpecEnc, the relation of C02) of some value under the schema, "
+                            "which the generic decoder reads back as exactly one datum whatever follows. NOT in the statement: str written to a uuid schema and bytes written to uuid / "
+                            "big-decimal / duration schemas; that the value read back is the one the Rust value converts to (to_value + resolve); the schema-aware deserializer - decided by "
+                            "the exact rows and the oracle (read_deser, generic decode + validate, to_value/resolve, from_value)"},
         ],
         "harness": c16_runs,
         "projection": "okerr",
